@@ -1001,12 +1001,17 @@ type membershipAllower struct {
 	oldMember MemberContent
 	// The new membership of the user if this event is accepted.
 	newMember MemberContent
+	// The join rule this check works with. It is a copy of the join rule cached in the
+	// allowerContext (and shadows it): the restricted join checks rewrite it to "invite" or
+	// "public", which must not leak into later checks made through the same allowerContext.
+	joinRule JoinRuleContent
 }
 
 // newMembershipAllower loads the information needed to authenticate the m.room.member event
 // from the auth events.
 func (a *allowerContext) newMembershipAllower(authEvents AuthEventProvider, event PDU) (m membershipAllower, err error) { // nolint: gocyclo
 	m.allowerContext = a
+	m.joinRule = a.joinRule
 	m.roomVersionImpl, err = GetRoomVersion(event.Version())
 	if err != nil {
 		return
